@@ -60,3 +60,15 @@ impl TriMesh {
 pub broadcast axiom fn ax_trimesh_vlen(m: &TriMesh) ensures #[trigger] m.verts().len() <= u32::MAX;
 pub broadcast axiom fn ax_trimesh_flen(m: &TriMesh) ensures #[trigger] m.faces().len() <= u32::MAX;
 pub broadcast group c14_mesh_axioms { ax_trimesh_vlen, ax_trimesh_flen }
+
+// parry TriMesh::new (TriMeshFlags::empty()): fails exactly for an empty index buffer (TriMeshBuilderError::EmptyIndices),
+// otherwise stores the two buffers unchanged.
+#[derive(Debug)] pub struct TriMeshBuilderError;
+impl TriMesh {
+    #[verifier::external_body]
+    pub fn new(vertices: Vec<Point3>, indices: Vec<[u32; 3]>) -> (r: core::result::Result<TriMesh, TriMeshBuilderError>)
+        ensures
+            r.is_ok() <==> indices@.len() > 0,
+            r.is_ok() ==> r.unwrap().verts() == vertices@ && r.unwrap().faces() == indices@,
+    { unimplemented!() }
+}
